@@ -124,6 +124,28 @@ def fill(claim, na):
         "atom count', loop counters over a view's own shape.",
         "DESIGN.md section 2, C02",
     )
+    claim(
+        "C13",
+        "provenance (unit) type system position vs index over the methods of AnnotatedSequence; "
+        "evaluation of the defect mirror table; clip-condition extraction; Copyable contract; "
+        "getitem/setitem sibling comparison (custom ast analysis)",
+        "Decides unit consistency of the position arithmetic, the defect tables and the copy "
+        "contract: in AnnotatedSequence.__getitem__/__setitem__/reverse_complement the sequence is "
+        "subscripted only by values of unit index (position - sequence start), the annotation is "
+        "sliced, Locations are built and the new sequence start is passed only with values of "
+        "unit position; reverse_complement mirrors every Location.Defect member, the map is an "
+        "involution with left/right exchanged, strands and first/last are exchanged; "
+        "Annotation.__getitem__ sets MISS_LEFT/MISS_RIGHT exactly under loc.first < i_first / "
+        "loc.last > i_last with i_last = stop - 1, clips to those bounds, keeps strand and prior "
+        "defects and tests overlap inclusively; Feature/Annotation/AnnotatedSequence satisfy the "
+        "Copyable contract (constructor arity, no bound method as value, fresh values); reading "
+        "and writing through a Feature index use the same location order, the same index "
+        "arithmetic and both reverse-complement reverse-strand parts. Not decided: per-base "
+        "equality with a model for arbitrary annotations.",
+        "Trusted: slice bounds and Location.first/last are positions, len(sequence) an index; "
+        "idiom tables in sa/props/C13.py.",
+        "DESIGN.md section 2, C13",
+    )
     for p in ["C03", "C03", "C04", "C05", "C08", "C09", "C10",
-              "C11", "C13", "C14", "C15", "C16", "C17", "C18", "C19"]:
+              "C11", "C14", "C15", "C16", "C17", "C18", "C19"]:
         na(p, PENDING)
